@@ -23,9 +23,10 @@ Theorem C10_nothing_lost : forall c t ls, Forall wf_lab ls ->
 Proof. exact nothing_lost_S1. Qed.
 Print Assumptions C10_nothing_lost.
 
-(** class S0: dispatching resumes with the oldest unsent request: written is always a prefix of accepted *)
-Theorem C10_resume_oldest_first : forall c t ls, Forall wf_lab ls -> run_ok ls (init c t) = true ->
+(** EVERY schedule: dispatching resumes with the oldest unsent request: written is always a prefix of accepted, and
+    nothing is written while a request is outstanding *)
+Theorem C10_resume_oldest_first : forall c t ls, Forall wf_lab ls ->
   let s := run ls (init c t) in
   wrs (tr s) = conc (tr s) ++ pendl s /\ exists rest, acc (tr s) = wrs (tr s) ++ rest.
-Proof. exact one_outstanding_fifo_S0. Qed.
+Proof. exact one_outstanding_fifo_S1. Qed.
 Print Assumptions C10_resume_oldest_first.
